@@ -183,8 +183,18 @@ class DocGen:
         for k, a in enumerate(attrs):
             # an attribute glued to the closing quote of the value in front of it is still an attribute
             glued = k > 0 and attrs[k - 1][-1:] in ('"', "'") and r.random() < 0.06
+            if "=" in a and a[-1:] in ('"', "'") and r.random() < 0.06:
+                # white space around the '=' of a quoted value (HTML style): the same attribute
+                n, v = a.split("=", 1)
+                a = n + r.choice([" =", "= ", " = ", "  =  "]) + v
             body += ("" if glued else sep) + a
         return self.ds + self.doubled() + pad + body + pad2 + self.de
+
+    def trail(self):
+        """rarely blanks or tabs at the end of a wrapper line of an unwrap-block (they belong to the removed region)"""
+        if self.strict_unwrap or self.rng.random() >= 0.15:
+            return ""
+        return self.rng.choice(["  ", " ", "\t", " \t "])
 
     def doubled(self):
         """rarely a second copy of the start delimiter in front of the tag body (`<<marker …>`, `[[marker]]`): the tag
@@ -264,7 +274,7 @@ class DocGen:
                             self.used_blank_wrapper = True
                             out.append(r.choice(["", ind, ind + self.unit]))
                         else:
-                            out.append(ind + "if (" + self.word() + ") {")
+                            out.append(ind + "if (" + self.word() + ") {" + self.trail())
                     if nbody:
                         out.extend(self.block(depth + 1, ind + self.unit, kinds, p_unwrap, nbody))
                     if wrappers >= 2:
@@ -272,7 +282,7 @@ class DocGen:
                             self.used_blank_wrapper = True
                             out.append(r.choice(["", ind]))
                         else:
-                            out.append(ind + "}")
+                            out.append(ind + "}" + self.trail())
                 else:
                     if r.random() < 0.9:
                         out.extend(self.block(depth + 1, ind if r.random() < 0.5 else ind + self.unit,
